@@ -1,4 +1,6 @@
 """C04 - LP/QP interior point: `converged` means feasible and optimal as stated (DESIGN 3, C04)."""
+import re
+
 import sympy as sp
 
 from ..facts import AnalysisBroken, walk, strip_targs
@@ -278,11 +280,79 @@ def rule_kkt(F, R):
             "the reduced system / recovery of du is not the elimination of the KKT system: residuals %s" % [sp.simplify(e) for e in full])
 
 
+def rule_rows_before_reduction(F, R):
+    """R-C04-8: equality rows are removed by the joint decomposition of [A|b] only. Anything that rewrites the caller's A or b before they are
+    stacked has to select rows on A *and* b: a selection that compares rows of A alone discards `a.x = b2` next to `a.x = b1`, and an infeasible
+    program is then solved as a feasible one (and reported converged)."""
+    f = F.one("nano::program::reduce", "src/program/util.cpp")
+    pA, pb = f.params[0], f.params[1]
+    stacks = [v for v in f.nodes() if v["k"] == "var" and v.get("c") and "stack" in pp(v["c"][0])]
+    if len(stacks) != 1:
+        return      # R-C04-4 reports the missing joint reduction
+    line = stacks[0]["l"]
+    early = []
+    for tgt, kind, site in writes_in(f, f.body):
+        if site["l"] >= line or any(x is site for x in walk(stacks[0])):
+            continue
+        d_ = ref_decl(tgt)
+        if d_ in (pA["d"], pb["d"]):
+            early.append((d_, kind, site))
+    if not early:
+        R.ok("R-C04-8", "rows before the reduction", f.loc(), "the caller's A and b reach the joint [A|b] decomposition unmodified")
+        return
+    done = set()
+    for d_, kind, site in early:
+        if site["i"] in done:
+            continue
+        done.add(site["i"])
+        inst = "pre-pass@%s" % f.loc(site)
+        g = None
+        bound = {}
+        if kind == "byref-arg" and site["k"] == "call":
+            cands = [h for h in F.functions.values() if h.qn == callee(site) and h.body is not None and len(h.params) == len(args(site))]
+            if cands:
+                g = cands[0]
+                for j, a_ in enumerate(args(site)):
+                    if ref_decl(a_) == pA["d"]:
+                        bound["A"] = g.params[j]["d"]
+                    if ref_decl(a_) == pb["d"]:
+                        bound["b"] = g.params[j]["d"]
+        if g is None or "A" not in bound:
+            R.incomplete("R-C04-8", inst, f.loc(site), "`%s` rewrites the equality constraints before the joint reduction; cannot tell how rows are selected" % pp(site)[:70])
+            continue
+        bodies = [g] + [l for _, l in F.lambdas_in(g)]
+        cmpA, cmpb = [], []
+        for h in bodies:
+            for x in h.nodes():
+                iscmp = (x["k"] == "bin" and x["op"] in ("==", "!=", "<", "<=")) or (x["k"] == "call" and (x.get("op") in ("==", "!=", "<", "<=") or
+                                                                                                            callee(x).split("::")[-1] in ("isApprox", "close", "isMuchSmallerThan", "isZero")))
+                if not iscmp:
+                    continue
+                refs = {y.get("d") for y in walk(x) if y["k"] == "ref"} | {cp.get("d") for y in walk(x) if y["k"] == "ref" for cp in ()}
+                # operands that are rows / entries (not merely the row counts used for sizing)
+                txt = pp(x)
+                if bound["A"] in refs and not re.fullmatch(r"\(?[\w.() ]*\.(rows|cols|size)\(\)[\w.() <=!]*\)?", txt):
+                    if any(y["k"] == "call" and callee(y).split("::")[-1].split("<")[0] in ("row", "col", "operator()", "vector", "matrix", "block", "array") and bound["A"] in {z.get("d") for z in walk(y) if z["k"] == "ref"}
+                           for y in walk(x)):
+                        cmpA.append(x)
+                if bound.get("b") in refs and any(y["k"] == "call" and callee(y).split("::")[-1].split("<")[0] in ("operator()", "vector", "array", "segment", "row") and bound.get("b") in {z.get("d") for z in walk(y) if z["k"] == "ref"}
+                                                  for y in walk(x)):
+                    cmpb.append(x)
+        if cmpA and not cmpb:
+            R.bad("R-C04-8", inst, f.loc(site), "`%s` rewrites A and b before the joint reduction and selects rows by `%s` - the right-hand side is never compared: of two rows with the same "
+                  "coefficients and different right-hand sides one is dropped, the infeasible program is solved as if it were feasible and can be reported converged while the "
+                  "caller's equality is violated" % (pp(site)[:60], pp(cmpA[0])[:80]))
+        else:
+            R.incomplete("R-C04-8", inst, f.loc(site), "`%s` rewrites the equality constraints before the joint reduction; the row selection (%d comparisons of A, %d of b) is not "
+                         "interpretable" % (pp(site)[:60], len(cmpA), len(cmpb)))
+
+
 def run(ctx):
     R = ctx.report
     F = ctx.facts(TUS)
     rule_status(F, R)
     rule_objective_scale(F, R)
     rule_reduce(F, R)
+    rule_rows_before_reduction(F, R)
     rule_guard(F, R)
     rule_kkt(F, R)
